@@ -164,6 +164,36 @@ def run(prop, tier, seed):
             for parts in ([g[0], g[1]], [g[1], g[0]], [g[0], g[1], g[0]]):
                 jobs.append((ident, 'concat', 'lsnlri', 'lsnlri:siblings', parts, None))
                 ident += 1
+        # two (and three) link-state / prefix-SID TLVs of the SAME type whose values differ (flag octets, SIDs): every one keeps
+        # its own decoding whatever is decoded after it
+        for kind, tw in (('lstlv', 4), ('sidtlv', 2)):
+            bytype = {}
+            for hx in sorted(set(pools.get(kind, []))):
+                bytype.setdefault(hx[:tw], []).append(hx)
+            for t, els in sorted(bytype.items()):
+                bylen = {}
+                for hx in els:
+                    if len(hx) > tw + 4:
+                        bylen.setdefault(len(hx), []).append(hx)
+                nlen = 0
+                for ln, cands in sorted(bylen.items()):
+                    first = {}
+                    for hx in cands:
+                        first.setdefault(hx[tw + 4:tw + 6], hx)
+                    # all-ones, all-zeros and one more first octet (flags set / clear / mixed)
+                    group = [first[k] for k in ('ff', '00') if k in first] + [v for k, v in sorted(first.items()) if k not in ('ff', '00')][:1]
+                    if len(group) < 2:
+                        continue
+                    nlen += 1
+                    if nlen > 4:
+                        break
+                    for x in group:
+                        for y in group:
+                            if x != y:
+                                jobs.append((ident, 'concat', kind, '%s:same-type' % kind, [x, y], None))
+                                ident += 1
+                                jobs.append((ident, 'concat', kind, '%s:same-type' % kind, [x, y, x], None))
+                                ident += 1
         # the known IPv6 special case, always exercised (a list ending with two default routes)
         for parts in (['00', '00'], ['4020010db800000000', '00', '00']):
             jobs.append((ident, 'concat', 'v6prefix', _cls('v6prefix', parts, ''), parts, None))
